@@ -1,0 +1,89 @@
+// Copyright 2026 Dolthub, Inc.
+//
+// Licensed under the Apache License, Version 2.0 (the "License");
+// you may not use this file except in compliance with the License.
+// You may obtain a copy of the License at
+//
+//     http://www.apache.org/licenses/LICENSE-2.0
+//
+// Unless required by applicable law or agreed to in writing, software
+// distributed under the License is distributed on an "AS IS" BASIS,
+// WITHOUT WARRANTIES OR CONDITIONS OF ANY KIND, either express or implied.
+// See the License for the specific language governing permissions and
+// limitations under the License.
+
+//go:build verif
+
+package cluster
+
+import (
+	"context"
+
+	"github.com/sirupsen/logrus"
+
+	"github.com/dolthub/dolt/go/libraries/doltcore/doltdb"
+	"github.com/dolthub/dolt/go/store/datas"
+	"github.com/dolthub/dolt/go/store/hash"
+)
+
+// Accessors used by the /verif correspondence harness (property C45) to drive the standby-replication commit hook
+// in-process. Add-only; compiled only with -tags verif.
+
+// VerifCommitHook wraps a commithook and the goroutines of its run loop.
+type VerifCommitHook struct {
+	h      *commithook
+	cancel context.CancelFunc
+	done   chan struct{}
+}
+
+// VerifNewCommitHook constructs the commit hook the cluster controller installs for one database.
+func VerifNewCommitHook(lgr *logrus.Logger, dbname string, primary bool, destDBF func(context.Context) (*doltdb.DoltDB, error), srcDB *doltdb.DoltDB, tempDir string, ctxF SqlContextFactory) *VerifCommitHook {
+	role := RoleStandby
+	if primary {
+		role = RolePrimary
+	}
+	h := newCommitHook(lgr, "standby", "verif://standby/"+dbname, dbname, role, destDBF, srcDB, tempDir)
+	h.sqlCtxFactory = ctxF
+	return &VerifCommitHook{h: h}
+}
+
+// Start runs the hook's background threads (replicate + tick), as commithook.Run does under sql.BackgroundThreads.
+func (v *VerifCommitHook) Start() {
+	ctx, cancel := context.WithCancel(context.Background())
+	v.cancel = cancel
+	v.done = make(chan struct{})
+	go func() {
+		v.h.run(ctx)
+		close(v.done)
+	}()
+}
+
+// Stop cancels the background threads and waits for them.
+func (v *VerifCommitHook) Stop() {
+	if v.cancel != nil {
+		v.cancel()
+		<-v.done
+		v.cancel = nil
+	}
+}
+
+// Execute is the post-commit callback (doltdb.CommitHook.Execute).
+func (v *VerifCommitHook) Execute(ctx context.Context, db *doltdb.DoltDB) (func(context.Context) error, error) {
+	return v.h.Execute(ctx, datas.Dataset{}, db)
+}
+
+// SetPrimary changes the hook's role as Controller.setRoleAndEpoch does.
+func (v *VerifCommitHook) SetPrimary(primary bool) {
+	if primary {
+		v.h.setRole(RolePrimary)
+	} else {
+		v.h.setRole(RoleStandby)
+	}
+}
+
+// State reports the hook's replication state under its lock.
+func (v *VerifCommitHook) State() (nextHead, lastPushedHead hash.Hash, caughtUp bool, primary bool, retryScheduled bool) {
+	v.h.mu.Lock()
+	defer v.h.mu.Unlock()
+	return v.h.nextHead, v.h.lastPushedHead, v.h.isCaughtUp(), v.h.role == RolePrimary, !v.h.nextPushAttempt.IsZero()
+}
